@@ -498,7 +498,11 @@ def _gen_print(g, r, dom, readable, o):
         if not spec.endswith(("c", "s")) and r.random() < 0.2:
             # the width given by a nested replacement field (automatic numbering: the value first, then the nested argument)
             ty = spec[-1] if spec and spec[-1] in "dboxX" else ""
-            chunks.append([e, r.choice(["", "0", ">", "*<", "+"]) + "{}" + ty, [r.randint(1, 14)]])
+            if r.random() < 0.3:
+                # a brace as the fill character (only expressible through a nested field)
+                chunks.append([e, "{}" + r.choice(["<", ">", "="]) + str(r.randint(2, 9)) + ty, [r.choice(["{", "}"])]])
+            else:
+                chunks.append([e, r.choice(["", "0", ">", "*<", "+"]) + "{}" + ty, [r.randint(1, 14)]])
         else:
             chunks.append([e, spec])
     if r.random() < 0.3:
